@@ -64,6 +64,11 @@ def oblig(ctx, m):
             got = geo.get((k, t), [])
             hit = [g for g in got if g[1] == VARIANT[k] and g[2] == want]
             name = 'C05:geometric:ci_mean:%s:%s' % (KNAME[k], tz)
+            other = [g for g in got if not (g[1] == VARIANT[k] and g[2] == want)]
+            for j, g in enumerate(other if hit else []):
+                # any other Ok path must be infeasible
+                m.submit(name + ':no-other-outcome[%d]' % j, g[0] + [T.mk('ige', T.var('n', 'i'), T.iconst(2))] + LEVEL_OK, T.bconst(False), key='C05:geometric:ci_mean:' + KNAME[k],
+                         note='an Ok path returning anything but exp of the log-space interval must be infeasible', on_sat=lambda model, p, k=k: native_wrapper(ctx, 'geometric', k, model))
             if hit:
                 ctx.record(name, 'M', 'held', bound='syntactic (same DAG)', sample={'obligation': 'Geometric::ci_mean == exp(Arithmetic::ci_mean over ln x), %s' % KNAME[k], 'verdict': 'same terms'})
             else:
@@ -81,6 +86,12 @@ def oblig(ctx, m):
             got = har.get((k, t), [])
             hit = [g for g in got if g[1] == VARIANT[k] and g[2] == want]
             name = 'C05:harmonic:ci_mean:%s:%s' % (KNAME[k], tz)
+            other = [g for g in got if not (g[1] == VARIANT[k] and g[2] == want)]
+            positive = [T.mk('fgt', b_, T.fconst(0)) for b_ in fb]
+            for j, g in enumerate(other if hit else []):
+                m.submit(name + ':no-other-outcome[%d]' % j, g[0] + positive + [T.mk('ige', T.var('n', 'i'), T.iconst(2))] + LEVEL_OK, T.bconst(False), key='C05:harmonic:ci_mean:' + KNAME[k],
+                         note='with strictly positive reciprocal-space bounds, an Ok path returning anything but their reciprocals must be infeasible',
+                         on_sat=lambda model, p, k=k: native_wrapper(ctx, 'harmonic', k, model))
             if hit:
                 ctx.record(name, 'M', 'held', bound='syntactic (same DAG)', sample={'obligation': 'Harmonic::ci_mean == 1/(flipped Arithmetic::ci_mean over 1/x) with ends exchanged, %s' % KNAME[k], 'verdict': 'same terms'})
             else:
@@ -146,6 +157,6 @@ def oblig(ctx, m):
     m.collect()
 
 
-def native_wrapper(ctx, which, k):
+def native_wrapper(ctx, which, k, model=None):
     from vlib import native
-    return native.replay_wrapper(ctx, which, k)
+    return native.replay_wrapper(ctx, which, k, model)
